@@ -85,3 +85,19 @@ def simple_derive_funnel(method='subtype'):
         return True, 'Integer(25).%s(subtypeSpec=ValueRange(0,10)) produced the value object %r which its own ' \
                      'subtypeSpec rejects' % (method, b)
     return False, 'derived object %r satisfies its constraint' % (b,)
+
+
+def choice_read_reselects():
+    from pyasn1.type import univ, namedtype
+    c = univ.Choice(componentType=namedtype.NamedTypes(namedtype.NamedType('i', univ.Integer()),
+                                                       namedtype.NamedType('s', univ.OctetString())))
+    c['s'] = b'D'
+    try:
+        c['i']
+    except Exception:
+        pass
+    try:
+        name, isv = c.getName(), bool(c.isValue)
+    except Exception as e:
+        name, isv = repr(e), False
+    return not (name == 's' and isv), "CHOICE with s selected, after reading c['i']: selected = %s, isValue = %r" % (name, isv)
